@@ -718,6 +718,9 @@ def _raw_log(i, with_proc=True):
          'ud': {'sec': 10 + i, 'usec': 5}, 'utz': {'mw': 0, 'dt': 0}}
     if with_proc:
         d.update({'p': (i + 1) % 3, 'pid': 900 + i})
+    if i % 2:
+        # a trace identifier: signpost namespace (interval begin, process scope) on odd records, log namespace otherwise
+        d['ti'] = ((0x1000 + i) << 32) | (0x02 << 24) | (0x81 << 8) | 6 if i % 4 == 1 else ((0x2000 + i) << 32) | (0x01 << 8) | 4
     return d
 
 
@@ -1311,7 +1314,9 @@ def do_process_column_case(req):
               add('BSC_getpid', 11, 1), add('BSC_getpid', 11, 2, (0, 42, 0, 0)),
               add('TRACE_DATA_THREAD_TERMINATE_PID', 9, 0, (77, 1, 0, 0)),
               add('BSC_getppid', 9, 1), add('BSC_getppid', 9, 2, (0, 1, 0, 0)),
-              add('BSC_getpid', 13, 1), add('BSC_getpid', 13, 2, (0, 1, 0, 0))]
+              add('BSC_getpid', 13, 1), add('BSC_getpid', 13, 2, (0, 1, 0, 0)),
+              add('TRACE_DATA_THREAD_TERMINATE', 5, 0, (5, 0, 0, 0)),          # not a declaration: thread 5 stays what the dump declared
+              add('BSC_getuid', 5, 1), add('BSC_getuid', 5, 2, (0, 0, 0, 0))]
 
     class FakeParser:
         def __init__(self, tp=None, pn=None):
@@ -1963,3 +1968,32 @@ def do_fault_record_case(req):
 
 
 HANDLERS['fault_record_case'] = do_fault_record_case
+
+
+def do_headless_window_case(req):
+    """a dump that starts in the middle of an operation: single records and bare END records of the decoder's code, through
+    formatted_traces with and without filters"""
+    import io
+    import struct
+    from spec import container as S
+    from pykdebugparser.pykdebugparser import PyKdebugParser
+    inv = {v: k for k, v in _cached_codes().items()}
+    name = req['decoder']
+    recs = []
+    for i, q in enumerate((0, 2, 3, 1, 2)):
+        recs.append(struct.pack('<Q32sQIIQ', 10 + i, struct.pack('<QQQQ', 77, 0x61626364, 0, 0), 5, inv[name] | q, 0, 0))
+    data = S.build_v2([(5, 10, 'proc')], 0, recs)
+    for cfg in ({}, {'filter_class': [inv[name] >> 24]}, {'filter_process': 'proc'}):
+        p = PyKdebugParser()
+        p.color = False
+        for k, v in cfg.items():
+            setattr(p, k, v)
+        try:
+            list(p.formatted_traces(io.BytesIO(data)))
+        except BaseException as ex:  # noqa
+            return {'violates': True, 'what': 'formatted_traces%s over a dump that begins with headless %s records raised %s: %s' % (
+                ' with %r' % cfg if cfg else '', name, type(ex).__name__, ex)}
+    return {'violates': False}
+
+
+HANDLERS['headless_window_case'] = do_headless_window_case
